@@ -91,8 +91,12 @@ std::vector<T> make_data_dim(Rng& rng, std::size_t bins, std::string& kind, bool
     std::vector<T> d(bins, T());
     int const span = std::is_same<T, float>::value ? 40 : 400;   // binary exponent half-range
     constant = false;
-    switch (rng.below(9))
+    switch (rng.below(10))
     {
+    case 9: kind = "single-occupied-smoothed-bin";   // smoothing underflows everywhere but in one bin (r == 1)
+        if (bins >= 3) { std::size_t k = rng.range(1, bins - 2); d[k - 1] = std::numeric_limits<T>::denorm_min(); d[k + 1] = d[k - 1]; }
+        else d[0] = T(1);
+        break;
     case 8: kind = "subnormal"; { T s = std::numeric_limits<T>::denorm_min(); for (auto& x : d) x = s * T(rng.below(60)); if (std::all_of(d.begin(), d.end(), [](T v) { return v == T(); })) d[0] = s; } break;
     case 0: kind = "one-nonzero-bin"; d[rng.below(bins)] = std::ldexp(T(1) + T(rng.u01l()), int(rng.below(2 * span)) - span); break;
     case 1: kind = "two-spikes"; d[rng.below(bins)] = T(1) + T(rng.u01l()); d[rng.below(bins)] = std::ldexp(T(1), int(rng.below(40)) - 20); break;
